@@ -23,6 +23,91 @@ CHECKS = {
             "Generated document sequences (registers, classes, packages, math/lists left open, \\openout, ...) are processed in one interpreter and B's canonicalised tree (and HTML5 files in the 'rendered' stream) is compared with B processed alone in a fresh fork; a monitor diffs every class attribute of every plasTeX class against its import-time value after every document. Exploration: held on the generated sequences, except the listed known finding.",
             "Trusted: fork of a process that imported plasTeX but processed nothing is a 'fresh interpreter'; id canonicalisation; '@' caches and Node._mixed_ book-keeping are not parsing state. Known finding: article class patches shared index/bibliography classes (known_findings.json).",
             "DESIGN.md C17"),
+
+    "C01": ("hypothesis+atheris+exhaustive",
+            "exploration",
+            "differential property testing against an independent TeX82 lexer (reference model); Hypothesis strings x catcode tables, complete enumeration of short strings, atheris coverage-guided fuzzing",
+            "Generated strings over an adversarial alphabet, tokenized under default/@-letter/verbatim/randomly assigned category tables (built through the real Context.catcode API), must give exactly the (catcode, text) stream of models/texlex.py (tex.web 343-356), with class/category agreement, termination and no exception; plus all strings of length <= 4 (<= 5 thorough) over 9 characters x 2 tables exhaustively and an atheris campaign with the oracle inside the target. Exploration (the short-string sub-run is complete).",
+            "Trusted: models/texlex.py as a transcription of TeX82's lexical rules; the normal form of DESIGN.md C01 (no endlinechar insertion, adjacent \\par collapsed, active chars as documented, ignored characters dropped by the reader). Three listed known findings (line structure) are excluded by construction.",
+            "DESIGN.md C01"),
+    "C04": ("hypothesis+stateful+exhaustive",
+            "exploration",
+            "model-based property testing: generated balanced programs run against a TeX save-stack scoping model; Hypothesis RuleBasedStateMachine and a complete enumeration on the Context API against a stack-of-frames model",
+            "Source level: generated balanced nestings of 12 group kinds with local/global definitions, \\let, catcodes, counters, \\newif and probes; expected visible text known by construction from a save-stack model; context depth back to initial. API level: random histories (<= 40 steps) and every sequence of length <= 5 (<= 6 thorough) over a 15-op alphabet, invariants (look-up identity, membership, get_let, whichCode, depth, catcode-table aliasing) after every step. Exploration; the API enumeration is complete for its bound.",
+            "Trusted: models/scopemodel.py (TeX save-stack semantics, tex.web 268-284). Known findings listed: \\global prefix is a no-op, \\newcommand in a group is global, character \\let resolved by the tokenizer (excluded by construction).",
+            "DESIGN.md C04"),
+    "C06": ("hypothesis-stateful+exhaustive",
+            "exploration",
+            "model-based stateful property testing (RuleBasedStateMachine) against a list-of-lists tree model, plus complete enumeration of short edit sequences",
+            "Random DOM edit histories (<= 40 steps: append/insert/insertBefore/After/replaceChild/removeChild/pop/item assignment/extend/fragments/normalize/cloneNode/attribute-held nodes, indices -len-1..len+1) and every sequence of length <= 3 (quick; <= 4 thorough) over a small pool are applied to plasTeX.DOM and to the model; after every step child order, parent links, ownerDocument, siblings, first/last child, textContent, getElementsByTagName, compareDocumentPosition, clone disjointness and normalize idempotence are compared over every live node. Exploration; enumeration complete for its bound.",
+            "Trusted: models/dommodel.py (Python list semantics, fragment = splice); the two documented parent conventions for fragment children. Deviation from the design: length-5 enumeration is infeasible (branching 60-240), bounds are 3/4.",
+            "DESIGN.md C06"),
+    "C07": ("hypothesis",
+            "exploration",
+            "property-based testing over a generated LaTeX document grammar with unique marker words; oracle = predictions computed from the generated AST (marker order, tree well-formedness predicates, charsub rules)",
+            "Generated article/book/report documents (sectioning, paragraphs, fonts, lists, tabulars, floats, math, verbatim, theorems, footnotes, labels) are parsed; a depth-first walk (arguments before children) must meet every marker exactly once in source order, every node exactly once with a parent chain through its actual containers, sectioning units must nest by level, paragraphs never nest, and quote/dash substitutions appear in running text and never in verbatim or mathematics. Exploration.",
+            "Trusted: models/latexdoc.py (AST -> source + predictions, no plasTeX import). Parent-chain oracle (2) was exercised by no surviving-baseline mutant (stated weakness).",
+            "DESIGN.md C07"),
+    "C08": ("hypothesis+exhaustive",
+            "exploration",
+            "property-based testing against a LaTeX counter machine run over the generated AST; exhaustive comparison of number representations with a table-driven converter",
+            "Generated documents mixing numbered constructs, \\setcounter/\\addtocounter/\\stepcounter, theorem declarations, \\appendix, secnumdepth: node.ref text of every numbered node, enumerate item positions and final counter values must equal the model's. roman/Roman/arabic for 1..4999 and alph/Alph for 1..26 are compared exhaustively (also through a parsed document). Exploration; the representation sub-run is complete.",
+            "Trusted: models/latexdoc.py counter machine (LaTeX2e rules per class). Known finding listed: \\item[x] in enumerate steps the counter (excluded by construction). Units beyond secnumdepth are surveyed, not asserted.",
+            "DESIGN.md C08"),
+    "C09": ("hypothesis",
+            "exploration",
+            "property-based testing: label->object map predicted from the AST, identity of idref targets, plus a metamorphic relation (references moved before/after all labels give the same map)",
+            "Generated documents with labels on sections, equations, items, captions, theorems and references before/after/inside, dangling references, \\cite/\\bibitem: every ref's idref must be (identity) the node the model designates, its id the label, its number the model's; dangling references resolve to no node; ids distinct; moving all references before or after all labels changes nothing. Exploration.",
+            "Trusted: models/latexdoc.py label model (LaTeX \\@currentlabel scoping). Known finding listed: a label inside an unnumbered list item attaches to the item (excluded by construction); labels after an unnumbered unit are not asserted.",
+            "DESIGN.md C09"),
+    "C10": ("hypothesis",
+            "exploration",
+            "property-based testing: list and tabular shapes (items, rows, cells, spans, borders per boundary, no leak between cells) predicted from the generated AST",
+            "Generated nested lists and tabulars (column specs with | p{} @{} *{n}{}, \\multicolumn, \\hline/\\cline, empty cells, nested tabulars, math, groups, a \\def probe for leaks): item sequence and nesting, rows/cells/colspans, span sums, and borders compared per boundary with the model. Exploration.",
+            "Trusted: models/shapemodel.py. Known findings listed: \\hline next to a shorter row, ungrouped font declaration in an item swallows following items (excluded by construction).",
+            "DESIGN.md C10"),
+    "C12": ("hypothesis",
+            "exploration",
+            "metamorphic property testing: hostile-leaf document vs benign twin rendered by HTML5/XHTML, parsed with html.parser; identical element skeleton and decoded text = leaf",
+            "Documents whose text positions hold markup-hostile leaves (< > & quotes, tag-, entity- and script-like strings, non-ASCII) are rendered with HTML5 default/minimal and XHTML; the parsed event stream must equal the benign twin's with each marker replaced by the decoded hostile leaf (text nodes and attribute values); with escape-high-chars the bytes are pure ASCII and the decoded text unchanged under utf-8/ascii/latin-1. Exploration.",
+            "Trusted: models/renderdoc.py + models/renderrun.py (each case rendered in a fresh fork), html.parser. Known finding listed: image-placeholder regex rewrites text like &lt-width; (excluded by construction).",
+            "DESIGN.md C12"),
+    "C13": ("hypothesis",
+            "exploration",
+            "property-based testing against an exact file-placement model over split level x filename template x bad-chars x renderer, plus a rerun under another PYTHONHASHSEED",
+            "Generated documents x split-level -10..6 x filename templates x bad-chars x three renderer/theme combinations: number of files = file-producing units, each body marker exactly once in the file of its nearest file-producing ancestor and in document order, footnotes at the end of their file, names distinct, clean and equal to the fnmodel prediction, identical names/placement on a fresh-interpreter rerun with another hash seed (1/8 of the cases). Exploration.",
+            "Trusted: models/renderdoc.py placement model, models/fnmodel.py.",
+            "DESIGN.md C13"),
+    "C14": ("hypothesis",
+            "exploration",
+            "property-based testing: href/id closure over all produced files, id uniqueness, ref number/target file vs model, toc reachability",
+            "Generated documents with cross-file labels/refs, footnotes, index, bibliography x split level x toc-depth x toc-non-files x base-url x three renderer/theme combinations: every internal href names a produced file and an existing id, ids unique per file, a rendered \\ref shows the model number and points into the file holding its target, every file reachable from the start page through toc links. Exploration.",
+            "Trusted: models/renderdoc.py (counter and placement model), html.parser.",
+            "DESIGN.md C14"),
+    "C16": ("hypothesis+exhaustive",
+            "exploration",
+            "property-based testing against a layered-dictionary model through the real client entry point; complete option x source grid",
+            "Every option of every section (59 options, 9 sections, enumerated from the live config incl. html5) x type-appropriate values x layerings of 0-3 generated INI files and an argv, run through plasTeX.client.main with run() stubbed; stored value and interpolated read-back compared with models/cfgmodel.py. The grid option x {default, file, file2-over-file1, argv, file+argv} x value samples (1147 cells) is enumerated completely. Exploration; the grid is complete.",
+            "Trusted: models/cfgmodel.py; documented defaults are read from the live config as data.",
+            "DESIGN.md C16"),
+    "C18": ("hypothesis",
+            "exploration",
+            "property-based testing: validity predicates (paths, merged lines, page lists, collation order, groups, column partition) against an independent makeindex-style model",
+            "5-40 generated \\index entries (1-3 levels, sort@display, |see, |textbf, quoted specials, tied and near-miss keys) scattered over article/book documents x index-columns 1..4: set of paths = entries' paths with no duplicate sibling line, page list per path = occurrences in document order, sibling sort keys non-decreasing under the configured collator (read as data), groups by initial, columns an order-preserving partition. Exploration.",
+            "Trusted: models/idxmodel.py; the collation function is environment data (pyuca here lacks the expected collator: str.lower-style fallback).",
+            "DESIGN.md C18"),
+    "C19": ("hypothesis+exhaustive",
+            "exploration",
+            "property-based testing: boolean expression trees and loops evaluated by a reference interpreter (truth value known by construction); complete grid of \\not placements",
+            "Generated ifthen programs (six atom kinds, \\and/\\or left-to-right, \\not anywhere, redundant parentheses, upper-case aliases; branches with markers and side effects; \\whiledo 0-6 iterations, nested): event sequence and final state must equal models/ifthenmodel.py, math-disable switches restored. All 8154 cells of the \\not-placement x connective x parenthesisation grid for <= 3 operands are enumerated. Exploration; the grid is complete.",
+            "Trusted: models/ifthenmodel.py (ifthen package semantics as stated in C19). Knife-edge length comparisons and boolean-name collisions are surveyed, not asserted.",
+            "DESIGN.md C19"),
+    "C20": ("hypothesis+stateful+exhaustive-faults",
+            "fault_enumeration",
+            "fault injection: every truncation point and every single-bit flip of saved .paux files, generated multi-byte corruptions and foreign files, save/corrupt/restore histories; round-trip oracle",
+            "Label sets rendered under the real HTML5/XHTML renderers; round trip (same number/title/id/url per renderer); for every saved file every prefix, every single-bit flip (files <= 450 B), generated splices/opcode-aware edits/foreign pickles: restore never raises, yields a subset of the saved labels unchanged, the following persist does not raise and leaves a loadable complete file that round-trips; state-machine histories over two renderers. ~100k faults per quick run.",
+            "Trusted: models/pauxmodel.py; corrupted pickles are loaded only under resource limits; adversarial pickles are out of scope (statement: interrupted writes and bit rot).",
+            "DESIGN.md C20"),
 }
 
 PENDING_REASON = "check not built yet in this session (planned, see DESIGN.md section 7); nothing is claimed for it"
